@@ -421,8 +421,12 @@ func compileStruct(typ *runtime.Type, structName, fieldName string, structTypeTo
 						allFields = append(allFields, fieldSet)
 					}
 				} else {
+					var fieldDec Decoder = pdec
+					if tag.IsString && isStringTagSupportedType(runtime.Type2RType(field.Type)) {
+						fieldDec = newWrappedStringDecoder(runtime.Type2RType(field.Type), pdec, structName, field.Name)
+					}
 					fieldSet := &structFieldSet{
-						dec:         pdec,
+						dec:         fieldDec,
 						offset:      field.Offset,
 						isTaggedKey: tag.IsTaggedKey,
 						key:         field.Name,
@@ -431,6 +435,11 @@ func compileStruct(typ *runtime.Type, structName, fieldName string, structTypeTo
 					allFields = append(allFields, fieldSet)
 				}
 			} else {
+				if tag.IsString && isStringTagSupportedType(runtime.Type2RType(field.Type)) {
+					// an embedded field of a type that is no struct is a member under the type's name,
+					// with the options of its tag ( the encoder quotes it )
+					dec = newWrappedStringDecoder(runtime.Type2RType(field.Type), dec, structName, field.Name)
+				}
 				fieldSet := &structFieldSet{
 					dec:         dec,
 					offset:      field.Offset,
